@@ -43,34 +43,28 @@ theorem dcpSelect_spec (c : Nat) (v : World) :
 
 /-- `Manager.connector_connection_made(c)` in CONNECTING: whatever `_main_channel.fire` does, the
     Manager is CONNECTED and owns `c` -/
-theorem connectionMade_spec (c : Nat) (v : World) (hms : v.ms = .CONNECTING) :
+theorem connectionMade_spec (c : Nat) (v : World) (hms : v.ms = .CONNECTING) (htm : TimerOk v) :
     ∃ q, (∀ t ∈ v.queue, t ∈ q) ∧
       core (connectionMade c v).1 = { core v with ms := .CONNECTED, conn := some c, queue := q } := by
   unfold connectionMade
   have e1 : ∀ u : World, u.ms = .CONNECTING → mInput .connection_made "" 0 u = ({ u with ms := .CONNECTED }, none) := by
     intro u hu
     simp [mInput, hu, Manager.table, mOuts]
-  have hms' : (startPingTimer v).ms = .CONNECTING := by
-    unfold startPingTimer; split <;> exact hms
-  have hcore : core (startPingTimer v) = core v := by
-    unfold startPingTimer; split <;> rfl
+  obtain ⟨t0, tt0, est⟩ := startPingTimer_same v
+  rw [andThen_ok (startPingTimer_ok v htm), est]
+  have hms' : ({ v with timer := t0, tt := tt0 } : World).ms = .CONNECTING := hms
   rw [e1 _ hms']
   simp only [andThen]
-  generalize startPingTimer v = u at hcore
-  have hq : u.queue = v.queue := congrArg Core.queue hcore
   unfold useConnection
   dsimp only
   split
-  · refine ⟨u.queue, fun t ht => by rw [hq]; exact ht, ?_⟩
-    rw [← hcore]; rfl
+  · exact ⟨v.queue, fun t ht => ht, rfl⟩
   · unfold mainFire
     dsimp only
     split
-    · refine ⟨u.queue, fun t ht => by rw [hq]; exact ht, ?_⟩
-      rw [← hcore]; rfl
-    · refine ⟨u.queue ++ u.mainObs.map (fun i => Thunk.waiter i true),
-        fun t ht => List.mem_append.mpr (Or.inl (by rw [hq]; exact ht)), ?_⟩
-      rw [← hcore]; rfl
+    · exact ⟨v.queue, fun t ht => ht, rfl⟩
+    · exact ⟨v.queue ++ v.mainObs.map (fun i => Thunk.waiter i true),
+        fun t ht => List.mem_append.mpr (Or.inl ht), rfl⟩
 
 theorem set_none_connecting {k : Core} (h : InvC ps pend k) (g : Nat) (hlen : k.ctors.length = g + 1)
     (st' : Connector.State) (hst : st' ≠ .connecting) :
@@ -84,7 +78,7 @@ theorem set_none_connecting {k : Core} (h : InvC ps pend k) (g : Nat) (hlen : k.
     have := (h.ctorB g' hg').1
     omega
 
-theorem accept_inv (h : Inv ps pend w) (g c : Nat) : Inv ps pend (logged (cInput connectionMade g .accept c w)) := by
+theorem accept_inv (h : Inv ps pend w) (htm : TimerOk w) (g c : Nat) : Inv ps pend (logged (cInput connectionMade g .accept c w)) := by
   apply inv_core_eq (k := core (cInput connectionMade g .accept c w).1) _ (logged_core _)
   cases hg : w.ctors[g]? with
   | none => rw [cInput_none _ _ _ _ _ hg]; exact h
@@ -102,6 +96,7 @@ theorem accept_inv (h : Inv ps pend w) (g c : Nat) : Inv ps pend (logged (cInput
       generalize hW2 : (stopPendingConnections g (stopPendingConnectors g (stopListeners g
         { w with ctors := w.ctors.set g .connected,
                  conns := w.conns.modify c fun x => { x with tracked := false } }))) = W2 at hcore ⊢
+      have htW2 : TimerOk W2 := by rw [← hW2]; exact htm
       have hct := set_none_connecting h g hlen .connected (by simp)
       -- after the stops, before select: the Connector is `connected`
       have hW2inv : InvC ps pend (core W2) := by
@@ -125,7 +120,7 @@ theorem accept_inv (h : Inv ps pend w) (g c : Nat) : Inv ps pend (logged (cInput
           have := congrArg Core.ms hcore
           simp only [core] at this
           rw [this]; exact hms
-        obtain ⟨q3, hq3, hcore3⟩ := connectionMade_spec c (dcpSelect c W2).1 hW3ms
+        obtain ⟨q3, hq3, hcore3⟩ := connectionMade_spec c (dcpSelect c W2).1 hW3ms ((keep_dcpSelect c W2).timerOk htW2)
         rw [andThen_pure_core, hcore3, hcore2, hcore]
         dsimp only
         refine InvC.toConnected (k := core w) h hm hms _ hct cs2 q3 c y hy ?_ ?_
